@@ -208,6 +208,20 @@ def main(argv):
         os.makedirs(outdir, exist_ok=True)
         p = os.path.join(outdir, "regress." + fn)
         shutil.copy(os.path.join(rdir, fn), p)
+        if fn.startswith("uncaught_"):
+            # a recorded wrong `unsat` of z3 that NO configuration contradicts: only the strict mode rejects it
+            os.environ["PYVC_STRICT_SEQ"] = "1"
+            try:
+                r = solve_file(Result("regress." + fn, "post", "unknown", smt_file=p), timeout=10.0, rounds=[3.0])
+            finally:
+                os.environ.pop("PYVC_STRICT_SEQ", None)
+            if r.status == "proved":
+                bad += 1
+                unsound += 1
+                print(f"FAIL    solver_regress/{fn:55s} UNSOUND even with PYVC_STRICT_SEQ=1 (prover={r.solver})")
+            else:
+                print(f"ok      solver_regress/{fn:55s} verdict={r.status} under PYVC_STRICT_SEQ=1 (NOT caught by the default portfolio: known z3 bug)")
+            continue
         r = solve_file(Result("regress." + fn, "post", "unknown", smt_file=p), timeout=10.0)
         if r.status in ("disagree", "refuted", "unknown"):
             print(f"ok      solver_regress/{fn:55s} verdict={r.status} (prover={r.solver}, contradicted by {(r.disagree or {}).get('solver')})")
